@@ -1,8 +1,8 @@
 //! Replay binary of check C06 (inline caches).  One JSON scenario per input line:
 //! `{"id": .., "steps": [js source, ...], "cfgs": [{"ic_off": bool, "gc": n, "strict": bool}, ...]}`.
 //! Every configuration runs all steps as successive `eval`s on ONE fresh context and yields
-//! `{"steps": [{"out": [print lines], "c": completion, "ic": [hits, misses, stores]}, ...]}` or
-//! `{"panic": "message @ file:line"}`.  One output line per scenario: `{"id": .., "runs": [...]}`.
+//! `{"steps": [{"out": [print lines], "c": completion, "ic": [hits, misses, stores]}, ...]}`; when the engine
+//! panics the steps completed before it are kept and `"panic": "message @ file:line"` is added.  One output line per scenario: `{"id": .., "runs": [...]}`.
 //!
 //! Scenarios share a worker thread (a fresh thread per scenario costs more than the scenario);
 //! after a panic the worker is replaced so that no thread-local engine state survives it.
@@ -11,7 +11,13 @@ use boa_engine::{Context, Source, context::ContextBuilder};
 use hcommon::*;
 use serde_json::{Value, json};
 use std::io::{BufRead, Write};
+use std::cell::RefCell;
 use std::sync::Arc;
+
+thread_local! {
+    /// Steps completed by the run in progress (survives a panic of the engine).
+    static STEPS: RefCell<Vec<Value>> = const { RefCell::new(Vec::new()) };
+}
 
 fn set_switches(cfg: &Value) {
     boa_engine::verif::set_ic_disabled(cfg.get("ic_off").and_then(Value::as_bool).unwrap_or(false));
@@ -20,7 +26,7 @@ fn set_switches(cfg: &Value) {
 
 fn run_one(steps: &[Value], cfg: &Value) -> Value {
     set_switches(cfg);
-    let mut out_steps = Vec::with_capacity(steps.len());
+    STEPS.with(|v| v.borrow_mut().clear());
     {
         let mut ctx: Context = ContextBuilder::new().build().expect("context");
         install_print(&mut ctx);
@@ -34,12 +40,13 @@ fn run_one(steps: &[Value], cfg: &Value) -> Value {
             let r = ctx.eval(Source::from_bytes(src));
             let c = render_completion(&r, &mut ctx);
             let (h, m, s) = boa_engine::verif::take_ic_counters();
-            out_steps.push(json!({"out": take_out(), "c": c, "ic": [h, m, s]}));
+            let o = json!({"out": take_out(), "c": c, "ic": [h, m, s]});
+            STEPS.with(|v| v.borrow_mut().push(o));
         }
     }
     set_switches(&json!({}));
     boa_gc::force_collect();
-    json!({"steps": out_steps})
+    json!({"steps": STEPS.with(|v| std::mem::take(&mut *v.borrow_mut()))})
 }
 
 struct Progress {
@@ -62,7 +69,9 @@ fn worker(scs: Arc<Vec<Value>>, mut p: Progress) -> Progress {
                 Ok(v) => p.runs.push(v),
                 Err(e) => {
                     let loc = LAST_PANIC.with(|c| c.borrow().clone());
-                    p.runs.push(json!({"panic": format!("{} @ {}", panic_message(&e), loc)}));
+                    let done = STEPS.with(|v| std::mem::take(&mut *v.borrow_mut()));
+                    let _ = take_out();
+                    p.runs.push(json!({"steps": done, "panic": format!("{} @ {}", panic_message(&e), loc)}));
                     panicked = true;
                     break;
                 }
